@@ -262,23 +262,35 @@ impl<T> RcInner<T> {
 
     #[inline]
     pub(crate) fn is_not_destructed(&self) -> bool {
+        // The caller is inside a critical section and is about to hand out a `Snapshot`. Stamp
+        // the current epoch on success, as every other way of reaching the object does, so that
+        // a cascade from a parent retired earlier cannot regard the object as unreachable by
+        // readers and reclaim it while that `Snapshot` is live.
+        let epoch = global_epoch();
         #[cfg(feature = "circ_verif")]
         crate::verif::yp(crate::verif::site::NOT_DESTRUCTED_LOAD, &self.state as *const AtomicU64 as usize);
         let mut old = State::from_raw(self.state.load(Ordering::SeqCst));
-        while !old.destructed() && old.strong() == 0 {
+        while !old.destructed() {
+            let new = if old.strong() == 0 {
+                old.add_strong(1)
+            } else {
+                old
+            };
             #[cfg(feature = "circ_verif")]
             crate::verif::yp(crate::verif::site::NOT_DESTRUCTED_CAS, &self.state as *const AtomicU64 as usize);
             match self.state.compare_exchange(
                 old.as_raw(),
-                old.add_strong(1).as_raw(),
+                new.with_epoch(epoch).as_raw(),
                 Ordering::SeqCst,
                 Ordering::SeqCst,
             ) {
-                Ok(_) => return true,
+                Ok(_) => {
+                    return true;
+                }
                 Err(curr) => old = State::from_raw(curr),
             }
         }
-        !old.destructed()
+        false
     }
 }
 
